@@ -11,10 +11,10 @@ TREE = {
  "C06": ("6/C06", "revocation oracle: shadow-table dispatch after applied revokes (same tree and later), table sizes and per-reactor registration counts (hook snapshot) equal the shadow table at every quiescent point; a poll that owes a removal / despawn reaction to a never-revoked registration after a related revocation is reported; one generated case in eight is a world-reactor history (engine wr16) judged by its run-set oracle: triggers removed from a world reactor stop scheduling it at once, the others keep working"),
  "C07": ("6/C07", "lifetime oracle: reference-count model of every non-persistent registration call; GC events must name exactly the doomed reactors at the first collection; liveness at end of frame equals 'has a trigger left'; system state (canary) dropped exactly with the reactor; handles carried by payloads and by mid-body calls are followed; reactors registered before the plugin is installed (a persistent and a revokable sentinel) obey the same rules; one generated case in eight is a world-reactor history (engine wr16) judged by the part of its oracle this property shares (a world reactor's system is never despawned or duplicated)"),
  "C08": ("6/C08", "removal/despawn oracle: removals and despawns caused by commands, direct world access, plain Bevy systems in four slots of the frame, recursive despawn and automatic despawn (signal dropped, collected by the next garbage collection); per poll, reactions applied per (reactor, entity, component) lie between 'registered throughout' and 'registered at poll'; despawn reactions exactly the in-flight registrations; nothing pending after the end-of-frame poll; one generated case in eight is a world-reactor history (engine wr16) judged by the part of its oracle this property shares (run set of removal / despawn reactions of world reactors)"),
- "C09": ("6/C09", "structural order oracle: well-nested trace (ops of a run applied in queued order while it is innermost, every command applied inside its op's bracket or a poll, postponed commands replayed inside the completion of their blocker, never dropped instead of postponed; polled despawn reactions run within the tree whose poll took them; when the outermost runner call returns nothing is left unpolled; manual runs applied directly from inside an exclusive body; trees of 140-260 queued runs)"),
+ "C09": ("6/C09", "structural order oracle: well-nested trace (ops of a run applied in queued order while it is innermost, every command applied inside its op's bracket or a poll, postponed commands replayed inside the completion of their blocker, never dropped instead of postponed; polled despawn reactions run within the tree whose poll took them; when the outermost runner call returns nothing is left unpolled; manual runs applied directly from inside an exclusive body; trees of 140-260 and of 1100 queued runs; a delivery to a live system that neither ran nor was postponed by the end of its tree is reported)"),
  "C11": ("6/C11", "quiescence invariant from the hook snapshot after every tree (counter, postponed buffer, four prepared lists, four reacting flags, callbacks present) and no surviving event data entity, over sequences of trees with aborts/postponements"),
- "C12": ("6/C12", "order oracle: deliveries from one sender to one target start, and their data is consumed, in the order sent (per payload id); a removal / despawn caused earlier by the same run is reacted to before a later delivery of that run to the same target starts (also when the poll in between owed the reaction and did not deliver it); the reactions one system gets for the removals of one component are queued in the order the removals happened; a run that misses its own data while the sender has other deliveries to the same target is reported"),
- "C13": ("6/C13", "state oracle: the k-th run of every registration sees Local == captured counter == k; its Bevy change-detection baseline (ReactRes::is_changed sampled by every generated system, predicted from the applied resource mutations) is exactly its previous run (exclusive systems: World change ticks since their previous flush); state dropped only with the system; a system that is collected or gone while it still has registered triggers is reported (state lost while it should live); one generated case in eight is a world-reactor history (engine wr16) judged by the part of its oracle this property shares (Local continuity of world reactors, their system never gone)"),
+ "C12": ("6/C12", "order oracle: deliveries from one sender to one target start, and their data is consumed, in the order sent (per payload id); a removal / despawn caused earlier by the same run is reacted to before a later delivery of that run to the same target starts (also when the poll in between owed the reaction and did not deliver it); the reactions one system gets for the removals of one component are queued in the order the removals happened; a run that misses its own data while the sender has other deliveries to the same target is reported; a despawn performed by a collection belongs to the run that dropped the last signal (the collection at a runner's entry comes before its poll)"),
+ "C13": ("6/C13", "state oracle: the k-th run of every registration sees Local == captured counter == k; its Bevy change-detection baseline (ReactRes::is_changed sampled by every generated system, predicted from the applied resource mutations) is exactly its previous run (exclusive systems: World change ticks since their previous flush); state dropped only with the system; a system that is collected or gone while it still has registered triggers is reported (state lost while it should live); one generated case in eight is a world-reactor history (engine wr16) judged by the part of its oracle this property shares (Local continuity of world reactors, their system never gone); the parameter state of exclusive systems is constructed at most once per system (counted FromWorld)"),
  "C15": ("6/C15", "one-off oracle: dispatch/lifetime/run-count oracles specialised to reactors registered with `once` (at most one run, gone and unregistered afterwards, empty bundle dropped)"),
  "C18": ("6/C18", "fault-injection oracle (plus one generated case in eight from the world-reactor engine wr16, incl. EntityReactor::add on an entity despawned earlier in the same batch, and one in eight from the syscall engine sys17, panics only: spawned systems despawned before or during a call): ops naming despawned systems/entities; no panic, no run of a dead system, payload released, every other oracle still holds in that tree; system events aimed at entities that carry no system; automatic despawn requests naming dead entities"),
 }
@@ -32,7 +32,7 @@ def check(pid, engine, design, text, technique, note):
         "technique": technique,
     }
 
-NOTE = ("exploration only: absence of a violation is evidence over the generated, counted space (<= 8 systems, <= 5 entities, 2 component / event / resource types); "
+NOTE = ("exploration only: absence of a violation is evidence over the generated, counted space (<= 8 systems, <= 5 entities, 2 component / event / resource types; in a third of the programs a sibling App works on the same thread between the top-level ops); "
         "trusts the `verif` hook events, bevy 0.15 command-queue semantics and the generator soundness rules of DESIGN.md section 4")
 
 checks = []
@@ -41,19 +41,19 @@ for pid, (design, text) in sorted(TREE.items()):
         "property-based testing: proptest-generated programs (byte decoder), trace + reference model oracle, structural shrinking, JSON replay", NOTE))
 
 checks.append(check("C14", "acc14", "6/C14",
-    "accessor oracle: per system run of 1..n accessor calls (React, Reactive, ReactiveMut, ReactRes, ReactResMut, World/ReactCommands triggers, ReactCommands::insert, despawns) a value/liveness model predicts the multiset of reactions seen by type-wide and entity-scoped probe reactors, the stored values and every return value; read-only world-level resource accessors agree and trigger nothing; equality is the type's PartialEq (values carry a tag nibble that equality ignores); registering and revoking unrelated reactors (component, resource, entity-scoped single keys and tuples, and broadcast / any_entity_event reactors keyed by the same types) in between changes nothing; in half of the cases the type-wide probes are App-level reactors added before ReactPlugin",
+    "accessor oracle: per system run of 1..n accessor calls (React, Reactive, ReactiveMut, ReactRes, ReactResMut, World/ReactCommands triggers, ReactCommands::insert, despawns) a value/liveness model predicts the multiset of reactions seen by type-wide and entity-scoped probe reactors, the stored values and every return value; read-only world-level resource accessors agree and trigger nothing; equality is the type's PartialEq (values carry a tag nibble that equality ignores); registering and revoking unrelated reactors (component, resource, entity-scoped single keys and tuples, and broadcast / any_entity_event reactors keyed by the same types) in between changes nothing; in half of the cases the type-wide probes are App-level reactors added before ReactPlugin; React::get_mut on a zero-sized reactive component",
     "property-based testing: proptest-generated call histories, reference model oracle, shrinking, JSON replay",
     "exploration only; probe reactors are the observation device; a mutation trigger whose entity died before its application still runs the type-wide reactors (exactly one trigger per call)"))
 checks.append(check("C17", "sys17", "6/C17",
-    "syscall oracle: histories of calls over syscall / named_syscall / register_named_system + named_syscall_direct / spawn_system + spawned_syscall / Commands::syscall / Commands::spawned_syscall / syscall_once (World, Commands, EntityCommands) / EntityCommands::syscall / spawn_rc_system (+ signal drop and collection) / Commands::insert_system / IdMappedSystems::revoke with nesting and command-issued calls; a key -> count model predicts every return value, the order of every queued-command effect visible on return, and every error; validation variants run their validation exactly when the key's state is created; a spawned system despawned during its own call still returns its output; each key's change-detection baseline is its own; cached systems see entities in archetypes created between calls (Query); callbacks handed to the _from entry points may have been initialised 0-2 times by their owner",
+    "syscall oracle: histories of calls over syscall / named_syscall / register_named_system + named_syscall_direct / spawn_system + spawned_syscall / Commands::syscall / Commands::spawned_syscall / syscall_once (World, Commands, EntityCommands) / EntityCommands::syscall / spawn_rc_system (+ signal drop and collection) / Commands::insert_system / IdMappedSystems::revoke with nesting and command-issued calls; a key -> count model predicts every return value, the order of every queued-command effect visible on return, and every error; validation variants run their validation exactly when the key's state is created; a spawned system despawned during its own call still returns its output; each key's change-detection baseline is its own; cached systems see entities in archetypes created between calls (Query); callbacks handed to the _from entry points may have been initialised 0-2 times by their owner; the ordinary system also writes through a custom Deferred<SystemBuffer>",
     "property-based testing: proptest-generated call histories, reference model oracle, shrinking, JSON replay",
     "exploration only; a re-entrant call on a running syscall / named key is generated with its own count left open (documented: only the outer-most invocation's state persists)"))
 checks.append(check("C10", "rc10", "6/C10",
-    "reference-count oracle: histories of prepare / clone / drop / garbage-collect / app.update / manual-despawn / spawn-child / reparent operations plus worker-thread drops, injected faults (a clone dropped by the unwinding of a caught panic; worker threads dying while holding clones) and clones held by components of other entities (dropped in the middle of a collection pass); after every operation the set of live entities equals the count model (collected exactly when the last clone is gone, with descendants; never earlier; collections idempotent); a collection pass interrupted by a panicking removal hook loses nothing that waited behind the fault; two clones of 40-160 entities dropped by two barrier-released threads; half of the cases run under the whole ReactPlugin with commands / system events aimed at counted entities (the runner must leave them alone) and despawn reactors registered on them; counted entities made by spawn_rc_system_command(_from) / spawn_rc_system(_from), whose spawned system can be called and can strip its own entity during the call",
+    "reference-count oracle: histories of prepare / clone / drop / garbage-collect / app.update / manual-despawn / spawn-child / reparent operations plus worker-thread drops, injected faults (a clone dropped by the unwinding of a caught panic; worker threads dying while holding clones) and clones held by components of other entities (dropped in the middle of a collection pass); after every operation the set of live entities equals the count model (collected exactly when the last clone is gone, with descendants; never earlier; collections idempotent); a collection pass interrupted by a panicking removal hook loses nothing that waited behind the fault; two clones of 40-160 entities dropped by two barrier-released threads; half of the cases run under the whole ReactPlugin with commands / system events aimed at counted entities (the runner must leave them alone) and despawn reactors registered on them; counted entities made by spawn_rc_system_command(_from) / spawn_rc_system(_from), whose spawned system can be called and can strip its own entity during the call; a second world on the same thread that collects in between, or from a component's Drop in the middle of a pass of the first world",
     "property-based testing: proptest-generated operation histories (incl. OS-thread drop schedules), reference-count model oracle, shrinking, JSON replay",
     "exploration only; thread interleavings are sampled by the OS scheduler, not enumerated (the checked invariants are schedule independent)"))
 checks.append(check("C16", "wr16", "6/C16",
-    "world-reactor oracle: histories of add / remove (partial, full, spanning entities) / run / trigger / despawn over two WorldReactors with dynamic bundles, one with starting triggers and three EntityWorldReactors; per window between settles the multiset of runs (reactor, readings, local entity + tag) equals the key-table model; add / remove / run return values (false only for add on a despawned entity); EntityLocal::get / entity agree with get_mut; per-entity run counters in the local data and per-reactor Locals are continuous; local data exists exactly while the entity lives and keeps a trigger; number of system commands constant",
+    "world-reactor oracle: histories of add / remove (partial, full, spanning entities) / run / trigger / despawn over two WorldReactors with dynamic bundles, one with starting triggers and three EntityWorldReactors; per window between settles the multiset of runs (reactor, readings, local entity + tag) equals the key-table model; add / remove / run return values (false only for add on a despawned entity); EntityLocal::get / entity agree with get_mut; per-entity run counters in the local data and per-reactor Locals are continuous; local data exists exactly while the entity lives and keeps a trigger; number of system commands constant; key bundles may contain event keys of the resource's type (a second registry keyed by the same TypeId); EntityReactor::add on an entity despawned earlier in the same batch",
     "property-based testing: proptest-generated operation histories, reference model oracle, shrinking, JSON replay",
     "exploration only; uses hook helpers verif_has_entity_world_local / verif_system_commands as read-only observers"))
 checks.sort(key=lambda c: c["property_id"])
